@@ -23,7 +23,7 @@ def design_checks(tier):
 
 
 def cases(tier, seed):
-    n = 120 if tier == "quick" else 1500
+    n = 200 if tier == "quick" else 1500
     rng = random.Random(seed * 256203221 + 20)
     out = []
     for k in range(n):
